@@ -3,6 +3,7 @@
   singular problem over ℝ on which the Gram–Schmidt model runs unambiguously:
   `Ex.pR`: A = [1 1; 0 0], b = (1,1), unit weights, S = {1}; tested norms 1, 0 (first phase),
   1 (second phase); x = (0,1), v = (0,−1), defect 1, unknown 2 flagged.
+  `Ex.pT`: a refused problem (S does not resolve the defect).
 -/
 import Gama.Lemmas.Ls.GsoCof
 import Mathlib.Analysis.Real.Sqrt
@@ -66,17 +67,53 @@ theorem pR_result : (runOf pR).rhs.bot = [0, 1] ∧ (runOf pR).rhs.top = [0, -1]
     dotM, dotMAux, norm2, movePtrs, movePtrsAux, swapAt, sqrtS, tol_lt_one, h0,
     List.range, List.range.loop]
 
-theorem pR_answers : ∃ a, gsoSolveBefore pR = .ok a ∧ gsoSolve pR = .ok a ∧ a.x = #[0, 1]
+theorem pR_answers : ∃ a, gsoSolve pR = .ok a ∧ a.x = #[0, 1]
     ∧ a.r = #[0, -1] ∧ a.defect = 1 ∧ a.lindep 2 = .ok true := by
   obtain ⟨hx, hr, hd, he⟩ := pR_result
   have hreg : regInRange pR.n pR.reg = true := by decide
-  have h1 : gsoSolveBefore pR = gsoSolve pR := by
-    simp [gsoSolve, gsoSolveBefore, gsoSolveWith, he]
-  have h2 : ∃ a, gsoSolveBefore pR = .ok a := by
-    simp [gsoSolveBefore, gsoSolveWith, hreg]
+  have h2 : ∃ a, gsoSolve pR = .ok a := by
+    simp [gsoSolve, gsoSolveWith, hreg, he]
   obtain ⟨a, ha⟩ := h2
-  obtain ⟨ax, ar, -, adef, alin, -⟩ := gsoSolveWith_ok (refuse := false) ha
-  refine ⟨a, ha, h1 ▸ ha, by rw [ax, hx], by rw [ar, hr], by rw [adef, hd]; rfl, by rw [alin, hd]; rfl⟩
+  obtain ⟨ax, ar, -, adef, alin, -⟩ := gsoSolveWith_ok (refuse := true) ha
+  refine ⟨a, ha, by rw [ax, hx], by rw [ar, hr], by rw [adef, hd]; rfl, by rw [alin, hd]; rfl⟩
+
+/-- a refused problem over ℝ: A = [1 1 0; 0 0 1], b = (1,2), S = {3}; the kernel vector (−1,1,0)
+    vanishes on S.  Tested norms 1, 0, 1 (first phase), 0 (second phase). -/
+noncomputable def pT : Problem ℝ :=
+  { m := 2, n := 3, rows := #[#[(1, 1), (2, 1)], #[(3, 1)]],
+    cov := #[⟨2, 0, #[1, 1]⟩], rhs := #[1, 2], reg := .subset [3] }
+
+theorem pT_dense : pT.dense = #[#[1, 1, 0], #[0, 0, 1]] := by
+  simp [Problem.dense, pT]
+  refine ⟨?_, ?_⟩ <;> rfl
+
+theorem pT_run : runOf pT = run (tolerance : ℝ) 2 3 (entry #[#[1, 1, 0], #[0, 0, 1]])
+    (fun i => (#[1, 2] : Array ℝ).getD i 0) [false, false, true] := by
+  unfold runOf
+  rw [pT_dense]
+  rfl
+
+theorem pT_result : (runOf pT).tested = [1, 0, 1, 0] ∧ (runOf pT).err = 1 := by
+  have h0 : ¬ (tolerance : ℝ) < 0 := not_lt.2 (le_of_lt tol_pos)
+  rw [pT_run]
+  simp [run, augmented, entry, icgs1, icgs2, step1, orth1, cgs1, subAll,
+    dot, dotAux, norm1, Col.axpy, Col.scale, vaxpy, vscale, phase2, step2, orth2, cgs2, subAllB,
+    dotM, dotMAux, norm2, movePtrs, movePtrsAux, swapAt, sqrtS, tol_lt_one, h0,
+    List.range, List.range.loop]
+
+theorem pT_unambiguous : Unambiguous pT := by
+  intro r hr
+  rw [pT_result.1] at hr
+  simp only [List.mem_cons, List.not_mem_nil, or_false] at hr
+  rcases hr with rfl | rfl | rfl | rfl
+  · exact Or.inr tol_lt_one
+  · exact Or.inl rfl
+  · exact Or.inr tol_lt_one
+  · exact Or.inl rfl
+
+theorem pT_refused : gsoSolve pT = .error .BadRegularization := by
+  have hreg : regInRange pT.n pT.reg = true := by decide
+  simp [gsoSolve, gsoSolveWith, hreg, pT_result.2]
 
 end Ex
 end Gama.Ls.Gso
